@@ -195,6 +195,17 @@ func (index *metricIndexDatabase) GetGroupingContext(ctx *flow.ShardExecuteConte
 }
 
 func (index *metricIndexDatabase) PrepareFlush() {
+	if index.flushFailed.Load() {
+		// the last flush failed: some stores still keep what it had frozen, others(flushed before the failure,
+		// or nothing frozen) would freeze what has been indexed since, then the retry writes new forward/inverted
+		// entries and series before the postings of their series(the order which flushStores relies on).
+		// The retry first writes what is still frozen, then it freezes and writes all stores together.
+		return
+	}
+	index.prepareFlush()
+}
+
+func (index *metricIndexDatabase) prepareFlush() {
 	index.metricInverted.prepareFlush()
 	index.forward.prepareFlush()
 	index.inverted.prepareFlush()
@@ -216,7 +227,7 @@ func (index *metricIndexDatabase) Flush() error {
 			// the stores above have only written that old part. What has been indexed since is still mutable,
 			// but the caller goes on to persist the family data (and the log sequence) of those series:
 			// freeze and write it now.
-			index.PrepareFlush()
+			index.prepareFlush()
 			if err := index.flushStores(); err != nil {
 				return err
 			}
